@@ -176,7 +176,16 @@ def tagsOf (fs : List SFrame) : List String :=
     | .method _ 10 11 _ => true
     | .method _ 10 31 _ => true
     | _ => false
+  -- a content frame on a channel other than that of the latest method frame of the half: the
+  -- dissector keeps one "last method" per half, not per channel
+  let rec interleaved (last : Option Nat) : List SFrame → Bool
+    | [] => false
+    | .method ch _ _ _ :: rest => interleaved (some ch) rest
+    | .header ch _ _ _ _ :: rest => (last != some ch) || interleaved last rest
+    | .body ch _ :: rest => (last != some ch) || interleaved last rest
+    | .heartbeat _ :: rest => interleaved last rest
   (if multi then ["amqp-body-per-frame"] else []) ++ (if empty then ["amqp-empty-body-unreported"] else []) ++
-  (if handshake then ["amqp-handshake-collision"] else [])
+  (if handshake then ["amqp-handshake-collision"] else []) ++
+  (if interleaved none fs then ["amqp-channel-interleaving"] else [])
 
 end KsVerif.Amqp.Spec
